@@ -388,7 +388,8 @@ func parametersJSON(it map[string]any, fk string) ([]byte, error) {
 		if err != nil {
 			return nil, err
 		}
-		v = map[string]any{"value": json.Number(plainDecimal(d)), "unit": unit, "system": "http://unitsofmeasure.org", "code": unit}
+		// the human-readable unit differs from the code on purpose: the System unit is the code
+		v = map[string]any{"value": json.Number(plainDecimal(d)), "unit": "display of " + unit, "system": "http://unitsofmeasure.org", "code": unit}
 	default:
 		return nil, fmt.Errorf("item %q cannot be a FHIR %s", t, fk)
 	}
